@@ -70,14 +70,17 @@ def r1_separability(ctx):
 def r2_one_state_per_subject(ctx):
     ctx.rule("C07.R2", "scipy_minimize: one cloned state and one single-individual dataset per subject", 4)
     f = ctx.ix.func("leaspy.algo.personalize.scipy_minimize", "ScipyMinimizeAlgorithm._compute_individual_parameters", "C07.R2")
+    from ..astq import Canon, unify
+    L = Canon(f.node).lines(False, True)
+    bd = unify(L, ["?data = Data.from_dataframe(?df, ...)", "?dss = {?i: Dataset(?data[[?i]]...) for ?i in $2.indices}"])
     ds = [s for s in statements(f.node) if isinstance(s, ast.Assign) and isinstance(s.value, ast.DictComp) and "Dataset(" in U(s.value.value)]
-    ok = len(ds) == 1 and isinstance(ds[0].value, ast.DictComp) and U(ds[0].value.generators[0].iter) == "dataset.indices" and U(ds[0].value.key) == U(ds[0].value.generators[0].target) \
-        and U(ds[0].value.value).startswith(f"Dataset(data[[{U(ds[0].value.key)}]]")
-    ctx.check(ok, "C07.R2", f, ds[0] if ds else f.node, "one Dataset(data[[idx]]) per identifier", "the per-subject datasets are not built as Dataset(data[[idx]]) for each identifier")
+    ctx.check(bd is not None, "C07.R2", f, ds[0] if ds else f.node, "one Dataset(data[[idx]]) per identifier", "the per-subject datasets are not built as Dataset(data[[idx]]) for each identifier",
+              construct="per-subject datasets")
     cl = [s for s in ast.walk(f.node) if isinstance(s, ast.Assign) and isinstance(s.targets[0], ast.Subscript) and isinstance(s.targets[0].value, ast.Name)
           and ((isinstance(s.value, ast.Call) and isinstance(s.value.func, ast.Attribute) and s.value.func.attr == "clone") or U(s.value) in ("state", "model.state"))]
     ok = len(cl) == 1 and isinstance(cl[0].value, ast.Call) and U(cl[0].value.func).endswith(".clone")
-    ctx.check(ok, "C07.R2", f, cl[0] if cl else f.node, "one clone of the model state per subject", "subjects share a working state: one subject's optimisation reads another's data / latent values")
+    ctx.check(ok, "C07.R2", f, cl[0] if cl else f.node, "one clone of the model state per subject", "subjects share a working state: one subject's optimisation reads another's data / latent values",
+              construct="one clone per subject")
     cont = U(cl[0].targets[0].value) if cl else "states"
     dcont = U(ds[0].targets[0]) if ds else "datasets"
     for c in ast.walk(f.node):
@@ -85,9 +88,8 @@ def r2_one_state_per_subject(ctx):
             ok = len(c.args) == 2 and isinstance(c.args[0], ast.Subscript) and isinstance(c.args[1], ast.Subscript) and U(c.args[0].value) == cont and U(c.args[1].value) == dcont \
                 and U(c.args[0].slice) == U(c.args[1].slice)
             ctx.check(ok, "C07.R2", f, c, "the subject's data goes into the subject's own state", f"`{U(c)[:80]}`: state and dataset of different subjects are paired")
-    sc = [s for s in statements(f.node) if isinstance(s, ast.Assign) and U(s.targets[0]) == "ips_scalings"]
-    ok = bool(sc) and ".from_state(" in U(sc[0].value) and "states[" not in U(sc[0].value)
-    ctx.check(ok, "C07.R2", f, sc[0] if sc else f.node, "scalings come from the population-level state (shared, read-only)", "scalings are not derived from the shared population-level state", construct="shared scalings")
+    bs = unify(L, ["?st = $1.state", "?sc = _AffineScalings1D.from_state(?st, ...)", "?res = Parallel(...)(...scaling=?sc...)"]) or unify(L, ["?sc = _AffineScalings1D.from_state($1.state, ...)", "?res = Parallel(...)(...scaling=?sc...)"])
+    ctx.check(bs is not None, "C07.R2", f, f.node, "scalings come from the population-level state (shared, read-only)", "scalings are not derived from the shared population-level state", construct="shared scalings")
 
 
 def r3_job_effects(ctx):
